@@ -351,6 +351,49 @@ def batParse (ts : List String) : Option AObs :=
     | _ => none
   | _ => none
 
+/-! ### cst -/
+
+structure CstInput where
+  a : Nat
+  b : Nat
+  fails : List Bool
+  sched : Schedule
+
+/-- `cst a <S> <R> th <k> <kind…> s <m> <tid…>`; kinds: `P` real ticker tick, `r` reportStats call,
+`rf` reportStats whose TrackTraffic fails, `c` Close (final report).  One harness entry = two model
+steps of that thread (claim both counters / TrackTraffic and its rollback). -/
+def cstInput (ts : List String) : Option CstInput :=
+  match after "a" ts, natAfter "th" ts with
+  | a :: b :: _, some k =>
+    let kinds := ((after "th" ts).drop 1).take k
+    let rest := (after "th" ts).drop (1 + k)
+    match a.toNat?, b.toNat?, rest with
+    | some a, some b, "s" :: m :: ids =>
+      match m.toNat? with
+      | some m =>
+        match natList (ids.take m) with
+        | some ids =>
+          if kinds.length = k ∧ (ids.take m).length = m ∧ kinds.all (fun x => x == "P" || x == "r" || x == "rf" || x == "c") then
+            -- the harness drains with the same two-step entries, thread by thread, three passes
+            some ⟨a, b, kinds.map (· == "rf"),
+              ((ids ++ (List.replicate 3 (List.range k)).flatten).map fun t => [t, t]).flatten⟩
+          else none
+        | none => none
+      | none => none
+    | _, _, _ => none
+  | _, _ => none
+
+def cstShow (o : PObs) : String :=
+  s!"rep {o.repS} {o.repR} pend {o.pendS} {o.pendR} calls {o.calls} leak {o.leak}"
+
+def cstParse (ts : List String) : Option PObs :=
+  match ts with
+  | ["rep", a, b, "pend", c, d, "calls", e, "leak", g] =>
+    match a.toInt?, b.toInt?, c.toInt?, d.toInt?, e.toNat?, g.toNat? with
+    | some a, some b, some c, some d, some e, some g => some ⟨a, b, c, d, e, g⟩
+    | _, _, _, _, _, _ => none
+  | _ => none
+
 /-! ### entry points -/
 
 def runModel (ts : List String) : String :=
@@ -397,6 +440,10 @@ def runModel (ts : List String) : String :=
     match batInput ts with
     | some (pcs, s) => batShow (aObs (closeSeq false (run (aProg false) s (aInit pcs)).sh))
     | none => "bad-case"
+  | "cst" :: _ =>
+    match cstInput ts with
+    | some i => cstShow (pObs (pFinal .swap i.a i.b i.fails i.sched))
+    | none => "bad-case"
   | "mgr" :: _ =>
     -- two clean handlers: ResourceBase.onClose and the component's own onClose
     match mgrInput ts with
@@ -442,6 +489,10 @@ def runHolds (caseToks obsToks : List String) : String :=
   | "bat" :: _ =>
     match batInput caseToks, batParse obsToks with
     | some _, some o => holdsA o
+    | _, _ => false
+  | "cst" :: _ =>
+    match cstInput caseToks, cstParse obsToks with
+    | some i, some o => holdsP i.a i.b i.fails o
     | _, _ => false
   | "mgr" :: _ =>
     match mgrInput caseToks, mgrParse obsToks with
